@@ -11,7 +11,7 @@ d = props[pid]
 anch = d['anchors']
 prop = 'Property %s: %s\n\nStatement: %s\n\nQuantified over: %s\n\nCode areas involved: %s\n' % (
     pid, d['title'], d['statement'], d['quantifier']['text'], ', '.join(anch.get('files', [])))
-tmpl = open('/tmp/wt/PROMPT.tmpl').read()
+tmpl = open('/verif/tools/PROMPT.tmpl').read()
 ident = pid + suf
 txt = tmpl.replace('@ID@', ident).replace('@PROP@', prop)
 txt = txt.replace('"property": "%s"' % ident, '"property": "%s"' % pid)
